@@ -135,6 +135,7 @@ func (vc *VC) execGo(s *State, x *ast.GoStmt) {
 			delete(w.ghost, k) // call records are per procedure
 		}
 	}
+	vc.initCallRecords(w, lit.Body, info)
 	savedPrefix := vc.prefix
 	vc.prefix = fmt.Sprintf("worker%d>", vc.goCount)
 	wasSync := vc.workerMode
